@@ -191,3 +191,21 @@ def file_variants():
                     data = b"\xef\xbb\xbf" + data
                 out.append((f"text{i}/{tag}{'/bom' if bom else ''}", data))
     return out
+
+
+def budget_family(big: bool):
+    """inputs whose amount of independent work exceeds what one application of the formatter does (bounded passes,
+    one rewrite per pass for some rules, stages that run once per application): (tag, source)"""
+    import functools
+    out = []
+    out.append(("alias28", "def f(q):\n    v0 = q + 1\n" + "".join("    v%d = v%d\n" % (i + 1, i) for i in range(27)) + "    return v27\n\n\nprint(f(3))\n"))
+    out.append(("import_ifs5", "import m5\nif m5:\n    import m4\n    if m4:\n        import m3\n        if m3:\n            import m2\n"
+                "            if m2:\n                import m1\n                if m1:\n                    import m0\n"))
+    out.append(("import_ifs3", "import m3\nif m3:\n    import m2\n    if m2:\n        import m1\n        if m1:\n            import m0\n"))
+    out.append(("logging12", "import logging\n\na = 1\n" + functools.reduce(lambda s, _: 'logging.info("v{}".format(%s))' % s, range(12), "a") + "\n"))
+    if big:
+        out.append(("logging52", "import logging\n\na = 1\n" + functools.reduce(lambda s, _: 'logging.info("v{}".format(%s))' % s, range(52), "a") + "\n"))
+        out.append(("swap130", "".join("def f%d(x, a):\n    if x:\n        if a:\n            return %d\n        return 2\n    return 3\n\n\nprint(f%d(1, 2))\n"
+                                       % (i, i + 10, i) for i in range(130))))
+        out.append(("unused131", "def f(q):\n    v0 = q + 1\n" + "".join("    v%d = v%d + 1\n" % (i + 1, i) for i in range(130)) + "    return q\n\n\nprint(f(3))\n"))
+    return out
